@@ -641,6 +641,28 @@ Definition validate_config_st (m : machine) (allow_invalid add_missing : bool) (
       end
   end.
 
+(* a history of validations against one validator object (shared config_spec, shared build_spec cache):
+   step = (add_missing_keys, [section; base specs...], source) *)
+Definition vstep := (bool * list str * yv)%type.
+
+Fixpoint run_steps (m : machine) (allow_invalid : bool) (st : store) (steps : list vstep)
+  : store * list (result yv) :=
+  match steps with
+  | [] => (st, [])
+  | (add_missing, names, src) :: t =>
+      let '(st1, r) := validate_config_st m allow_invalid add_missing st names src in
+      let '(st2, rs) := run_steps m allow_invalid st1 t in
+      (st2, r :: rs)
+  end.
+
+(* what the property asks of one step: validation against a FRESH merge of the (unchanged) specs *)
+Definition fresh_validate (m : machine) (allow_invalid : bool) (st : store) (step : vstep) : result yv :=
+  let '(add_missing, names, src) := step in
+  match lookup_specs st names with
+  | Some specs => validate_config m allow_invalid add_missing (build_spec specs) src
+  | None => Err EKey
+  end.
+
 (* ---- declared result types ------------------------------------------------------------------------------ *)
 Definition within (param : option str) (v : fl) : bool :=
   match param with
@@ -769,3 +791,13 @@ Definition section_run (i : machine * bool * bool * list spec * yv) : result yv 
   let '(m, allow_invalid, add_missing, specs, source) := i in
   validate_config m allow_invalid add_missing (build_spec specs) source.
 Definition section_out_eqb : result yv -> result yv -> bool := res_eqb yv_eqb.
+
+Definition store_run (i : machine * bool * list (str * spec) * list vstep) : list (result yv) :=
+  let '(m, allow_invalid, specs, steps) := i in
+  snd (run_steps m allow_invalid {| st_specs := specs; st_cache := [] |} steps).
+Fixpoint store_out_eqb (a b : list (result yv)) : bool :=
+  match a, b with
+  | [], [] => true
+  | x :: a', y :: b' => res_eqb yv_eqb x y && store_out_eqb a' b'
+  | _, _ => false
+  end.
